@@ -37,7 +37,7 @@ Init == /\ a \in [mem : AMems, tabmax : ATabMax, hval : HVals]
         /\ cells = [x \in Addrs |-> 0]
         /\ g = 1
         /\ tab = [s \in 1..4 |-> Null]
-        /\ insts = <<[kind |-> "A", alive |-> TRUE, k |-> 0]>>
+        /\ insts = <<[kind |-> "A", alive |-> TRUE, k |-> 0, sure |-> TRUE, reexp |-> TRUE]>>
         /\ hist = <<>> /\ fin = FALSE
 
 MemMax == IF a.mem[2] < 0 THEN 65536 ELSE a.mem[2]
@@ -88,12 +88,17 @@ ApplyData(c, segs) ==
        IF off + Len(s.bytes) > pages * 65536 THEN [c |-> c, ok |-> FALSE]
        ELSE ApplyData([x \in Addrs |-> IF x >= off /\ x < off + Len(s.bytes) THEN s.bytes[x - off + 1] ELSE c[x]], Tail(segs))
 
-InstB(d) ==
+(* A consumer imports either from the provider A (via = 0) or from an earlier, alive consumer (via = its index): every
+   consumer exports its imports again under the same names, and what is imported through such a chain is the very same
+   object with the same type - matching is against the object, not against what the intermediate module declared. *)
+Vias == {0} \cup {j \in 2..Len(insts) : insts[j].alive /\ insts[j].sure /\ insts[j].reexp}      \* not through an instance that exists only by latitude
+(* whether a consumer exports its imports again is a property of its module, chosen with the declaration (re) *)
+InstVia(d, via, re) ==
   /\ Len(insts) < MaxB + 1
   /\ LET me == Len(insts) + 1 IN
      IF ~ValidDecl(d) \/ ~ImportMatch(d)
-     THEN /\ insts' = Append(insts, [kind |-> "B", alive |-> FALSE, k |-> 0])
-          /\ hist' = Append(hist, [i |-> me, op |-> "inst", decl |-> d, res |-> "reject",
+     THEN /\ insts' = Append(insts, [kind |-> "B", alive |-> FALSE, k |-> 0, sure |-> TRUE, reexp |-> re])
+          /\ hist' = Append(hist, [i |-> me, op |-> "inst", decl |-> d, via |-> via, reexp |-> re, res |-> "reject",
                                    may |-> "reject", st |-> Snapshot(pages, cells, g, tab)])
           /\ UNCHANGED <<pages, cells, g, tab>>
      ELSE LET e == ApplyElems(tab, d.elem, me)
@@ -102,13 +107,15 @@ InstB(d) ==
               ok == e.ok /\ dd.ok /\ startOK
               g2 == IF e.ok /\ dd.ok /\ d.start = "gset" THEN 9 ELSE g IN
           /\ tab' = e.t /\ cells' = dd.c /\ g' = g2 /\ UNCHANGED pages
-          /\ insts' = Append(insts, [kind |-> "B", alive |-> ok, k |-> a.hval])
-          /\ hist' = Append(hist, [i |-> me, op |-> "inst", decl |-> d, res |-> IF ok THEN "ok" ELSE "fail",
+          /\ insts' = Append(insts, [kind |-> "B", alive |-> ok, k |-> a.hval, sure |-> e.ok /\ ~MayRejectAnyway(d), reexp |-> re])
+          /\ hist' = Append(hist, [i |-> me, op |-> "inst", decl |-> d, via |-> via, reexp |-> re, res |-> IF ok THEN "ok" ELSE "fail",
                                    \* an out-of-bounds ELEMENT segment: wazero documents that it ignores it instead of failing
                                    may |-> IF ~e.ok THEN "ok-or-fail" ELSE IF MayRejectAnyway(d) THEN "ok-or-reject"
                                            ELSE IF ok THEN "ok" ELSE "fail",
                                    st |-> Snapshot(pages, dd.c, g2, e.t)])
   /\ UNCHANGED <<a, fin>>
+
+InstB(d) == \E via \in Vias : \E re \in BOOLEAN : InstVia(d, via, re)
 
 -----------------------------------------------------------------------------
 (* operations of an alive instance i on the shared objects *)
